@@ -141,7 +141,7 @@ def exp (P : Nat) (x : BF) : BF := Id.run do
     term := div Q (mul Q term r') (ofInt (Int.ofNat n))
     sum := add Q sum term
     n := n + 1
-    if term.m = 0 ∨ (Int.ofNat (bitLen term.m.natAbs) + term.e < -(Int.ofNat Q) - 8) ∨ n > 400 then go := false
+    if term.m = 0 ∨ (Int.ofNat (bitLen term.m.natAbs) + term.e < -(Int.ofNat Q) - 8) ∨ n > 400 + Q / 8 then go := false
   let mut y := sum
   for _ in [0:s] do
     y := mul Q y y
@@ -168,20 +168,52 @@ def precFor (z : BF) (extra : Nat) : Nat :=
   let zz := (floor (mul 64 z z)).toNat + 1
   extra + (zz * 3) / 2 + 64
 
-/-- erfc(z) for any real z, with about `extra` correct bits -/
-def erfc (extra : Nat) (z : BF) : BF :=
+/-- erfc(z), z ≥ 16, by the asymptotic expansion  e^{−z²}/(z√π) · Σ (−1)ⁿ (2n−1)!!/(2z²)ⁿ.
+The terms decrease until n ≈ z² ≥ 256 and the error is below the first omitted term, so stopping at 2^-(P+8)
+(reached within ~70 terms) gives full working precision with no cancellation and no precision blow-up:
+the series evaluator above needs about 1.5·z² extra bits, which is what made it unusable beyond |x| ≈ 130. -/
+def erfcAsym (P : Nat) (z : BF) : BF := Id.run do
+  let z2x2 := scale2 (mul P z z) 1
+  let mut term : BF := ⟨1, 0⟩
+  let mut sum : BF := ⟨1, 0⟩
+  let mut n : Nat := 0
+  let mut go := true
+  while go do
+    term := neg (div P (mul P term (ofInt (Int.ofNat (2 * n + 1)))) z2x2)
+    sum := add P sum term
+    n := n + 1
+    if term.m = 0 ∨ (Int.ofNat (bitLen term.m.natAbs) + term.e < -(Int.ofNat P) - 8) ∨ n > 240 then go := false
+  let pre := div P (exp P (neg (mul P z z))) (mul P z (sqrt P (pi P)))
+  return mul P pre sum
+
+/-- erfc by the convergent series only (any z; precision grows with z²) — kept to cross-check `erfcAsym` where both apply -/
+def erfcSeries (extra : Nat) (z : BF) : BF :=
   let a := abs z
   let P := precFor a extra
   let one : BF := ⟨1, 0⟩
   if isNeg z then add P one (erfPos P a) else sub P one (erfPos P a)
 
+/-- erfc(z) for any real z, with about `extra` correct bits -/
+def erfc (extra : Nat) (z : BF) : BF :=
+  let a := abs z
+  if lt ⟨16, 0⟩ a then
+    let P := extra + 96
+    if isNeg z then sub P ⟨2, 0⟩ (erfcAsym P a) else erfcAsym P a
+  else erfcSeries extra z
+
 def half : BF := ⟨1, -1⟩
 
 /-- Φ(x) = ½ erfc(−x/√2) -/
 def Phi (extra : Nat) (x : BF) : BF :=
-  let P := precFor (abs x) extra
+  let P := if lt ⟨22, 0⟩ (abs x) then extra + 96 else precFor (abs x) extra
   let z := div P (neg x) (sqrt P ⟨2, 0⟩)
   norm (extra + 64) (mul P half (erfc extra z))
+
+/-- Φ through the convergent series only (cross-check of the asymptotic branch) -/
+def PhiSeries (extra : Nat) (x : BF) : BF :=
+  let P := precFor (abs x) extra
+  let z := div P (neg x) (sqrt P ⟨2, 0⟩)
+  norm (extra + 64) (mul P half (erfcSeries extra z))
 
 /-- φ(x) = e^{−x²/2}/√(2π) -/
 def phi (extra : Nat) (x : BF) : BF :=
